@@ -1,0 +1,7 @@
+//go:build verif
+
+package controllerv1
+
+// VerifC15WriteResponse is the unexported writer of Prometheus query responses
+// (writeResponse -> writeMatrix / writeVector / writeScalar).
+var VerifC15WriteResponse = writeResponse
